@@ -67,7 +67,8 @@ def init_state(G, gs_init, eps_index: int, record=None, starting_step: int = 0, 
         rec = dict(record)
         missing = [n for n in G.nodes if n not in cgs.buffer]
         if missing and rec.get("output"):
-            rec["output"] = {n: (n not in missing) for n in G.nodes}
+            want = rec["output"]
+            rec["output"] = {n: (n not in missing) and bool(want.get(n, False) if isinstance(want, dict) else want) for n in G.nodes}
         try:
             cgs = G.init_record(cgs, **rec)
         except KeyError:
